@@ -166,6 +166,6 @@ func genC14(seed uint64, tier string, outdir string) *Report {
 			kn.g.String(), kn.plan.String(), endSnap.Verdict, endSnap.Err, endSnap.Batch, endSnap.Acc, endSnap.Vals, endSnap.Idx, endSnap.Eng)
 		rep.KnownChecked = append(rep.KnownChecked, KnownResult{ID: kn.sig, StillFails: res.PlanSig[kn.sig] > 0, What: what})
 	}
-	writeValShards(outdir, "C14", st.texts, 16, rep)
+	writeShards(outdir, "C14", valCaseHeader, "run_valcase", "valcase", st.texts, 16, rep)
 	return rep
 }
